@@ -310,7 +310,9 @@ def write_evidence(prop, tier, base_seed, level, out, meta, n_violations):
         "technique": "deterministic simulation with fault injection (seeded schedule/fault search)",
     }
     os.makedirs(EVIDENCE_DIR, exist_ok=True)
-    path = os.path.join(EVIDENCE_DIR, f"{prop}.json")
+    # ad-hoc invocations (--cases N, UBERJOB_SRC=...) never overwrite the evidence of the registered command
+    adhoc = os.environ.get("VERIF_ADHOC") == "1" or os.environ.get("UBERJOB_SRC", "/repo/src") != "/repo/src"
+    path = os.path.join(EVIDENCE_DIR, f"{prop}.dev.json" if adhoc else f"{prop}.json")
     tmp = path + ".tmp"
     with open(tmp, "w") as f:
         json.dump(doc, f, indent=1, default=_json_default)
